@@ -980,6 +980,9 @@ def run_history(ck, env, case):
 def check_histories(ck, env, n):
     for _ in range(n):
         run_history(ck, env, gen_history(ck.rng))
+        if any(v["case"].get("op") == "history" for v in ck.violations):
+            ck.notes.append("a history found hidden state shared between requests; exploration stopped")
+            break
 
 
 # ---------------------------------------------------------------- driving
@@ -1087,6 +1090,13 @@ def main():
     try:
         for name, c in vlib.load_corpus(PROP):
             run_corpus_case(ck, env, c, use_model)
+            if any(v["case"].get("op") == "history" for v in ck.violations):
+                break
+        if any(v["case"].get("op") == "history" for v in ck.violations):
+            # a history exposed hidden state in the library: whatever this process computes from now on
+            # may be a consequence of the damage, not an independent failure -> report the history itself
+            ck.notes.append("a corpus history found hidden state shared between requests; exploration stopped (library state of this process is compromised)")
+            raise StopIteration
         guarded(ck, lambda: check_tile_grids(ck, env, use_model), dict(op="tgrid"), "get_grids / get_native_grids of a tile")
         full = ck.tier == "thorough" or ck.budget_factor > 1
         guarded(ck, lambda: aligned_edges(ck, env, use_model, sample=None if full else 300), dict(op="edges"),
@@ -1106,6 +1116,8 @@ def main():
             check_cache(ck, env, 500, False)
             explore_elev(ck, env, 1500, False)
             check_histories(ck, env, 300)
+    except StopIteration:
+        pass
     finally:
         env.close()
     if os.environ.get("VERIF_DEBUG"):
